@@ -143,6 +143,10 @@ func (l *Gpos6_1) apply(ctx *Context, a, b int) int {
 	if p < 0 {
 		return -1
 	}
+	if int(mark1Record.Class) >= len(l.Mark2Array[mark2Idx]) {
+		// The mark class is not covered by the mark2 array.
+		return -1
+	}
 	mark2Record := l.Mark2Array[mark2Idx][mark1Record.Class]
 	if mark2Record.IsEmpty() {
 		// TODO(voss): verify that this is what others do, too.
